@@ -278,7 +278,12 @@ def check(R):
                            for b, t in other), other[0][0].where(other[0][1].bb) if other else '')
         R.floor('clean-up ACK site in handle_dropped_exchange', len(allowed), 1)
         for b, t in allowed:
-            cs = named_local(b, 'close_session')
+            # the flag that tells the two lookups apart: a bool taken out of the lookup result (whatever it is called)
+            cs = [l for l in range(len(b.locals or ())) if b.local_ty(l) == 'bool' and any(
+                k == 'assign' and pl_[1].get('op') == 'use' and op_place(pl_[1]['a'][0]) and len(op_place(pl_[1]['a'][0])) > 1
+                and any(c.endswith(('::get_exch', 'Option::or_else', 'Option::map')) for c in src_calls(prims.sources(b, op_place(pl_[1]['a'][0])[0])))
+                for (bb_, i_, k, pl_) in b.defs.get(l, ()))]
+            R.floor('lookup-kind flag in handle_dropped_exchange', len(cs), 1)
             te, fe = set(), set()
             for l in cs:
                 a_, b_ = prims.bool_local_edges(b, l)
